@@ -9,7 +9,8 @@ import random
 from . import gen_model
 from .props.c12 import a64_names, x86_names
 
-X86_FAM = x86_names()
+X86_FAM = dict(x86_names())
+X86_FAM.setdefault("rip", "rip")  # instruction pointer as the base of a symbolic address; nothing writes it
 A64_FAM = a64_names()
 
 X86_GPR_FAMS = ["a", "b", "c", "d", "si", "di", "bp", "r8", "r9", "r10", "r11", "r12", "r13", "r14", "r15"]
@@ -244,6 +245,9 @@ def rand_mem(rng, pool, isa, disps=(0, 8, 16, -8, 24), allow_wb=True, allow_inde
     if isa == "x86" and allow_sym and r < 0.08:
         # symbolic displacement: a global / static array addressed relative to a register
         m["sym"] = rng.choice(["gvar", "tbl_a", "tbl_b"])
+        if rng.random() < 0.5:
+            m["base"] = "rip"  # 'gvar(%rip)'
+            return m
         if allow_index and rng.random() < 0.4:
             m["index"] = pool.addr_reg(rng)
             m["scale"] = rng.choice([1, 4, 8])
